@@ -508,6 +508,10 @@ func (fx *FnExec) isLocalCell(a *ssa.Alloc) bool {
 					res = false
 				}
 			case *ssa.DebugRef:
+			case *ssa.MakeClosure:
+				if !readOnlyCapture(x, a) {
+					res = false
+				}
 			default:
 				res = false
 			}
@@ -683,7 +687,12 @@ func (fx *FnExec) execInstr(fr *frame, st *State, instr ssa.Instruction) {
 		fx.drop("channel creation (channel contents not modelled)")
 	case *ssa.MakeClosure:
 		for _, b := range x.Bindings {
-			fx.escape(fr, st, fx.val(fr, b))
+			bv := fx.val(fr, b)
+			fx.escape(fr, st, bv)
+			if p, ok := bv.(PtrV); ok && p.Kind == PLocal {
+				// read-only capture of a local cell: what the cell refers to is reachable from the closure
+				fx.escape(fr, st, fx.load(st, p))
+			}
 		}
 		fr.regs[x] = fx.c.Fresh("closure|"+x.Fn.Name(), RefSort)
 		fx.closures[fr.regs[x].(*Term)] = x
@@ -1771,4 +1780,56 @@ func (fx *FnExec) reprEq(t types.Type, a, b Val) *Term {
 	}
 	fx.oos("same() on %T", a)
 	return nil
+}
+
+// readOnlyCapture: the variable a is captured by the closure mc, the closure only ever reads it, and the
+// closure value itself is used only as the function of a defer or of a direct call in the enclosing
+// function (so it cannot run concurrently with, or outlive, the enclosing frame's own accesses).
+func readOnlyCapture(mc *ssa.MakeClosure, a *ssa.Alloc) bool {
+	fn, ok := mc.Fn.(*ssa.Function)
+	if !ok {
+		return false
+	}
+	if refs := mc.Referrers(); refs != nil {
+		for _, r := range *refs {
+			switch x := r.(type) {
+			case *ssa.DebugRef:
+			case *ssa.Defer:
+				if x.Call.Value != mc {
+					return false
+				}
+			case *ssa.Call:
+				if x.Call.Value != mc {
+					return false
+				}
+			default:
+				return false
+			}
+		}
+	}
+	for i, b := range mc.Bindings {
+		if b != a {
+			continue
+		}
+		if i >= len(fn.FreeVars) {
+			return false
+		}
+		fv := fn.FreeVars[i]
+		refs := fv.Referrers()
+		if refs == nil {
+			return false
+		}
+		for _, r := range *refs {
+			switch x := r.(type) {
+			case *ssa.DebugRef:
+			case *ssa.UnOp:
+				if x.Op != token.MUL {
+					return false
+				}
+			default:
+				return false
+			}
+		}
+	}
+	return true
 }
